@@ -160,6 +160,7 @@ pub fn one_program(cx: &mut Ctx, i: u64) {
                         crate::tracemachine::Event::Fail => cx.report.count("events_fail", 1),
                         crate::tracemachine::Event::Marker { .. } => cx.report.count("events_marker", 1),
                         crate::tracemachine::Event::OtherAssert { .. } => cx.report.count("events_other_assert", 1),
+                        crate::tracemachine::Event::Witness { .. } => cx.report.count("events_witness", 1),
                     }
                 }
                 match compare_traces(&p, &r.events, &trace.events, if debug { Some(syms) } else { None }) {
